@@ -1908,3 +1908,7 @@ impl<S: IndexedFull> Repository<S> {
         rewrite_snapshots_and_trees(self, snapshots, opts, tree_opts)
     }
 }
+
+#[cfg(kani)]
+#[path = "/verif/harness/repository.rs"]
+pub(crate) mod verif_harness;
